@@ -85,6 +85,9 @@ func Pipe(a, b string, opt Options) (*Conn, *Conn) {
 	return ca, cb
 }
 
+// SetChunk changes the read chunking of this end.
+func (c *Conn) SetChunk(n int) { c.opt.Chunk = n }
+
 func (c *Conn) Peer() *Conn    { return c.peer }
 func (c *Conn) IsClosed() bool { return c.closed }
 
